@@ -40,19 +40,20 @@ def chaos(game, rng: Rng) -> None:
     from primaite.simulator.system.software import SoftwareHealthState
     if not rng.chance(1, 2):
         return
+    health = [h for h in SoftwareHealthState if h.name != "FIXING"]  # FIXING is entered through fix() (it needs its countdown)
     nodes = list(game.simulation.network.nodes.values())
     node = rng.choice(nodes)
     k = rng.below(14)
     try:
         if k == 0 and node.services:
             s = rng.choice(list(node.services.values()))
-            s.health_state_actual = rng.choice(list(SoftwareHealthState))
+            s.health_state_actual = rng.choice(health)
         elif k == 1 and node.services:
             s = rng.choice(list(node.services.values()))
             rng.choice([s.stop, s.start, s.pause, s.resume, s.restart, s.disable, s.enable, s.scan, s.fix])()
         elif k == 2 and node.applications:
             a = rng.choice(list(node.applications.values()))
-            rng.choice([a.run, a.close, a.scan, a.fix, lambda: setattr(a, "health_state_actual", rng.choice(list(SoftwareHealthState))),
+            rng.choice([a.run, a.close, a.scan, a.fix, lambda: setattr(a, "health_state_actual", rng.choice(health)),
                         lambda: setattr(a, "num_executions", a.num_executions + rng.range(1, 12))])()
         elif k == 3:
             folders = list(node.file_system.folders.values())
